@@ -66,9 +66,9 @@ class Handler(BaseHTTPRequestHandler):
                 pass
             self.close_connection = True
             return
-        if beh in ("NotFound", "ServerError"):
+        if beh in ("NotFound", "ServerError", "Forbidden"):
             entry["applied"] = beh
-            code = 404 if beh == "NotFound" else 500
+            code = {"NotFound": 404, "ServerError": 500, "Forbidden": 403}[beh]
             self._reply(code, b"" if method == "HEAD" else b"error", {}, method)
             entry["status"] = code
             return
